@@ -131,6 +131,9 @@ func (w *world) loadContracts(trustedDir string) error {
 			return err
 		}
 	}
+	if err := w.cs.applyRefines(); err != nil {
+		return err
+	}
 	w.cs.applyInvariants()
 	return nil
 }
